@@ -1023,7 +1023,7 @@ const c19KnownExtLen = "ext-length-overflow"
 func TestVerifC19Corrupt(t *testing.T) {
 	st := vs.New("C19", t)
 	skipExtLen := vs.Known("TestVerifC19Corrupt", c19KnownExtLen)
-	vs.Check(t, 2, func(rt *rapid.T) {
+	vs.Check(t, 25, func(rt *rapid.T) {
 		c := st.Case()
 		rng := rand.New(rand.NewSource(int64(rapid.Uint64().Draw(rt, "prng"))))
 		bsize := rapid.SampledFrom([]int{0, 0, bitmapBytesTwoLevels, bitmapBytesThreeLevels}).Draw(rt, "bitmap")
